@@ -20,13 +20,27 @@ for p in props:
             "evidence_file": "evidence/%s.json" % pid,
             "replay_cmd_template": "./check %s --replay {path}" % pid,
             "engine": getattr(m, "ENGINE", "apiprobe"),
-            "level_claimed": {"category": m.LEVEL, "text": m.TEXT, "design_ref": "DESIGN.md section 4 (%s)" % pid},
+            "level_claimed": {"category": m.LEVEL, "text": m.TEXT, "design_ref": "DESIGN.md section 4 and Appendix B (%s)" % pid},
             "level_note": m.NOTE,
             "technique": m.TECHNIQUE,
         }
         checks.append(c)
     else:
         na.append({"property_id": pid, "reason": NA.get(pid, "no check registered yet: the engine for this property is still under construction in this round (see DESIGN.md section 9); nothing is claimed for it")})
+engines = json.load(open(os.path.join(ROOT, "tools", "engines.json")))
+by_engine = {}
+uses_forksrv = []
+for c in checks:
+    by_engine.setdefault(c["engine"], []).append(c["property_id"])
+    if "toolrun" in open(os.path.join(ROOT, "lib", "vf", "checks", c["property_id"].lower() + ".py")).read():
+        uses_forksrv.append(c["property_id"])
+for e in engines:
+    if e["name"] == "forksrv":
+        e["serves_properties"] = uses_forksrv
+    else:
+        e["serves_properties"] = sorted(set(by_engine.get(e["name"], [])) | (set(e["serves_properties"]) if e["name"] in ("xmlmut", "vsched") else set()))
+missing = set(by_engine) - set(e["name"] for e in engines)
+assert not missing, missing
 man = {
     "version": 1,
     "setup_cmd": "./setup.sh",
@@ -37,7 +51,7 @@ man = {
         "source_commits": [],
         "add_only": True,
     },
-    "engines": json.load(open(os.path.join(ROOT, "tools", "engines.json"))),
+    "engines": engines,
     "checks": checks,
     "not_applicable": na,
     "notes": "All checks are bounded exhaustive explorations (model-checking family); see DESIGN.md. known_findings.json lists genuine defects (open / fixed).",
